@@ -15,7 +15,7 @@ import (
 )
 
 var c02Forced = []string{"bin.plus", "bin.minus", "bin.mult", "bin.div", "bin.intdiv", "bin.mod", "bin.bitand", "bin.bitor", "bin.bitxor", "bin.shl", "bin.shr",
-	"un.minus", "un.tilde", "un.bang", "case.else", "case.noelse", "null.operand", "item.star", "ref.path", "ref.path.bare", "ref.missing", "from.alias", "where", "opt.pg", "naming.alias-unqualified", "naming.table-qualified", "row.envelope"}
+	"un.minus", "un.tilde", "un.bang", "case.else", "case.noelse", "null.operand", "item.star", "ref.path", "ref.path.bare", "ref.missing", "from.alias", "where", "opt.pg", "naming.alias-unqualified", "naming.table-qualified", "row.envelope", "ref.range"}
 
 func init() {
 	fw.Register(&fw.Prop{
@@ -44,6 +44,12 @@ func c02Table(c *fw.Case, name string) *gen.Table {
 	t := gen.RandTable(c.R, gen.TableSpec{Name: name, MaxRows: pick(c.Tier, 10, 30), NumCols: 3, StrCols: 1, BoolCols: 1, NullCols: 2, StrStyle: gen.Hostile})
 	for _, row := range t.Rows {
 		row["o1"] = map[string]any{"p": gen.RandNum(c.R), "q": map[string]any{"r": float64(c.Intn(9))}}
+		// an array whose length differs from row to row
+		ar := make([]any, 1+c.Intn(4))
+		for i := range ar {
+			ar[i] = float64(c.Intn(9))
+		}
+		row["ar"] = ar
 	}
 	return t
 }
@@ -70,6 +76,7 @@ func c02Proj(c *fw.Case) {
 	eg := &gen.ExprGen{R: c.R, T: t, PG: pg, MaxDepth: pick(c.Tier, 4, 5),
 		NumRefs: []string{"n1", "n2", "n3", "o1.p", "o1.q.r"}, NullRefs: []string{"z1", "zz"}}
 	var items []gen.SelectItem
+	useRange := false
 	n := 1 + c.Intn(8)
 	computed := false
 	for i := 0; i < n; i++ {
@@ -82,14 +89,18 @@ func c02Proj(c *fw.Case) {
 		case f == "item.star" || (f == "" && k == 0):
 			items = append(items, gen.SelectItem{Star: true})
 		case f == "ref.missing":
-			items = append(items, gen.SelectItem{E: gen.ColRef{Name: "zz"}})
+			items = append(items, gen.SelectItem{E: gen.ColRef{Name: "zz"}}, gen.SelectItem{E: gen.ColRef{Name: "t1_n1"}})
+		case f == "ref.range" || (f == "" && k == 4 && qualifier == "" && alias == ""):
+			// a path with an open-ended range: the tail of each row's own array
+			items = append(items, gen.SelectItem{E: gen.ColRef{Name: "ar_tail"}, Alias: gen.AliasN(i)})
+			useRange = true
 		case f == "ref.path" || f == "ref.path.bare":
 			items = append(items, gen.SelectItem{E: gen.ColRef{Name: "o1.q.r"}, Alias: gen.AliasN(i)})
 		case f == "un.bang" || (f == "" && k == 1):
 			items = append(items, gen.SelectItem{E: gen.Bang{P: pg.Gen()}, Alias: gen.AliasN(i)})
 			computed = true
 		case f == "" && k == 2:
-			cols := []string{"n1", "n2", "s1", "b1", "z1", "z2", "zz", "rid"}
+			cols := []string{"n1", "n2", "s1", "b1", "z1", "z2", "zz", "rid", "t1_n1", "t1xrid", "t1n2"}
 			items = append(items, gen.SelectItem{E: gen.ColRef{Name: gen.Pick(c.R, cols)}})
 		case f == "" && k == 3:
 			var e gen.Expr
@@ -162,6 +173,10 @@ func c02Proj(c *fw.Case) {
 	}
 	var feats []string
 	ro := gen.RenderOpts{Quote: gen.Quoting(c.Intn(2)), StrStyle: c.Intn(2), Features: &feats, Qualifier: qualifier, BarePaths: force == "ref.path.bare" || c.Chance(0.3)}
+	if useRange {
+		ro.ColText = map[string]string{"ar_tail": "`ar[(1:end)]`"}
+		feats = append(feats, "ref.range")
+	}
 	// a share of the cases is spelled with double-quoted identifiers and run
 	// under PostgresEscapingDialect (the hostile literals hold quotes of every
 	// kind and backslashes): the values are what they are without the option
@@ -194,6 +209,14 @@ func c02Proj(c *fw.Case) {
 	nullResult := false
 	for _, row := range t.Rows {
 		env := ref.Env{Row: row}
+		if ar, ok := row["ar"].([]any); ok && useRange {
+			// the reference reads the tail under a name of its own
+			withTail := map[string]any{"ar_tail": append([]any{}, ar[1:]...)}
+			for k, v := range row {
+				withTail[k] = v
+			}
+			env.Row = withTail
+		}
 		if where != nil {
 			ok, err := ref.EvalPred(where, env)
 			if err != nil {
